@@ -91,11 +91,12 @@ def _materialise(ctx):
   return ctx.memo(("cxxroot",), make)
 
 
-def _source_digest(root):
+def _source_digest(root, tu):
+  """Digest of the TU and of every header it can include."""
   h = hashlib.sha256()
   d = os.path.join(root, TG)
   try:
-    names = sorted(n for n in os.listdir(d) if n.endswith((".cc", ".h")))
+    names = sorted(n for n in os.listdir(d) if n.endswith(".h") or n == tu)
   except OSError as e:
     raise AnalysisError(f"typegraph sources missing: {e}") from e
   for n in names:
@@ -124,12 +125,12 @@ def dump_tu(ctx, name):
   flags = clang_flags([root, os.path.join(root, TG)])
   wrap = name == "cfg.cc"
   key = hashlib.sha256(json.dumps(
-      [_source_digest(root), flags[2:] if root == ctx.repo else "tmp", name,
-       _clang_version(), "v3"]).encode()).hexdigest()[:32]
+      [_source_digest(root, name), [f for f in flags if not f.startswith(root)],
+       name, _clang_version(), "v4"]).encode()).hexdigest()[:32]
   cache_dir = os.path.join(VERIF, ".cache")
   cache = os.path.join(cache_dir, f"{name}.{key}.json")
   text = None
-  if root == ctx.repo and os.path.exists(cache):
+  if os.path.exists(cache):
     with open(cache) as f:
       text = f.read()
   if text is None:
@@ -160,15 +161,21 @@ def dump_tu(ctx, name):
       raise AnalysisError(
           f"clang could not parse {TG}/{name}: {p.stderr.strip()[:400]}")
     text = p.stdout
-    if root == ctx.repo:
+    if True:
       try:
         os.makedirs(cache_dir, exist_ok=True)
-        for old in os.listdir(cache_dir):
-          if old.startswith(name + ".") and old.endswith(".json"):
-            os.unlink(os.path.join(cache_dir, old))
-        with open(cache + ".tmp", "w") as f:
+        if root == ctx.repo:
+          for old in os.listdir(cache_dir):
+            if old.startswith(name + ".") and old.endswith(".json"):
+              os.unlink(os.path.join(cache_dir, old))
+        with open(cache + f".{os.getpid()}.tmp", "w") as f:
           f.write(text)
-        os.replace(cache + ".tmp", cache)
+        os.replace(cache + f".{os.getpid()}.tmp", cache)
+        # bound the cache (variant dumps accumulate): keep the newest 80 files
+        files = sorted((os.path.join(cache_dir, x) for x in os.listdir(cache_dir)
+                        if x.endswith(".json")), key=os.path.getmtime)
+        for old in files[:-80]:
+          os.unlink(old)
       except OSError:
         pass
   dec = json.JSONDecoder()
@@ -741,3 +748,84 @@ class CxxFlow:
 
 def get_index(ctx, tus=TUS) -> CxxIndex:
   return ctx.memo(("cxx", tuple(tus)), lambda: CxxIndex(ctx, tus))
+
+
+# -- symbolic terms (schema matching) ---------------------------------------------
+
+EXPLICIT_CASTS = ("CXXFunctionalCastExpr", "CStyleCastExpr", "CXXStaticCastExpr")
+
+
+def term(ix, e, env=None):
+  """Renders an expression as a nested tuple; locals in `env` are substituted."""
+  env = env or {}
+  if e is None:
+    return None
+  k = e.get("kind")
+  kids = inner(e)
+  if k in EXPLICIT_CASTS:
+    return ("cast", qual_type(e), term(ix, kids[-1], env))
+  if k in TRANSPARENT:
+    return term(ix, kids[0], env) if kids else None
+  if k == "IntegerLiteral":
+    return ("int", int(e.get("value", "0")), qual_type(e))
+  if k == "CXXBoolLiteralExpr":
+    return ("bool", bool(e.get("value")))
+  if k == "CXXNullPtrLiteralExpr":
+    return ("nullptr",)
+  if k == "CXXThisExpr":
+    return ("this",)
+  if k == "DeclRefExpr":
+    rd = e.get("referencedDecl") or {}
+    if rd.get("id") in env:
+      return env[rd["id"]]
+    if rd.get("kind") in ("FunctionDecl", "CXXMethodDecl"):
+      return ("fn", ix.canon.get(rd.get("id"), rd.get("name")))
+    return ("var", rd.get("name"), rd.get("id"))
+  if k == "MemberExpr":
+    did = e.get("referencedMemberDecl")
+    base = term(ix, kids[0], env) if kids else ("this",)
+    if did in ix.fields:
+      return ("field", ix.fields[did], base)
+    return ("member", e.get("name"), base)
+  if k in ("BinaryOperator", "CompoundAssignOperator"):
+    return (e.get("opcode"), term(ix, kids[0], env), term(ix, kids[1], env))
+  if k == "UnaryOperator":
+    op = e.get("opcode")
+    if op in ("++", "--"):
+      op = ("post" if e.get("isPostfix") else "pre") + op
+    return (op, term(ix, kids[0], env))
+  if k == "ArraySubscriptExpr":
+    return _index(term(ix, kids[0], env), term(ix, kids[1], env))
+  if k == "ConditionalOperator":
+    return ("?:",) + tuple(term(ix, c, env) for c in kids)
+  if k == "CXXOperatorCallExpr":
+    key, fn, nm, obj = ix.callee(e)
+    args = [term(ix, c, env) for c in kids[1:]]
+    if nm == "operator[]" and len(args) == 2:
+      return _index(args[0], args[1])
+    return ("opcall", nm) + tuple(args)
+  if k == "CXXMemberCallExpr":
+    key, fn, nm, obj = ix.callee(e)
+    args = [term(ix, c, env) for c in kids[1:]]
+    o = term(ix, obj, env) if obj is not None else None
+    if nm == "data" and not args:
+      return ("data", o)
+    return ("mcall", key if fn is not None else nm, o) + tuple(args)
+  if k == "CallExpr":
+    key, fn, nm, obj = ix.callee(e)
+    return ("call", key) + tuple(term(ix, c, env) for c in kids[1:])
+  if k == "CXXConstructExpr" and len(kids) == 1:
+    return term(ix, kids[0], env)
+  return ("?", k)
+
+
+def _index(base, idx):
+  if isinstance(base, tuple) and base and base[0] == "data":
+    base = base[1]
+  return ("index", base, idx)
+
+
+def uncast(t):
+  while isinstance(t, tuple) and t and t[0] == "cast":
+    t = t[2]
+  return t
